@@ -151,11 +151,12 @@ fn gen_case(i: usize, rng: &mut Rng) -> (ConnCase, String) {
         }
         _ => {
             // pipelines of tiny requests (many responses)
-            let n = *rng.pick(&[10usize, 200, 1000]);
+            let n = *rng.pick(&[10usize, 200, 1000, 20000]);
+            let v2 = rng.chance(1, 2);
             for _ in 0..n {
-                bytes.extend_from_slice(b"GET /p HTTP/1.1\r\n\r\n");
+                bytes.extend_from_slice(if v2 { b"GET /p HTTP/2.0\r\n\r\n" } else { b"GET /p HTTP/1.1\r\n\r\n" });
             }
-            tag = format!("pipeline{}", n);
+            tag = format!("pipeline{}{}", if v2 { "v" } else { "" }, n);
         }
     }
     let c = ConnCase { bytes, mode: Mode::HalfClose, hold: None, segs: vec![], script: vec![action(act, blen)], unix: false, intent: format!("i_fam=c14 i_tag={} i_act={}", tag, act) };
